@@ -34,7 +34,7 @@ theorem writes_then_close (chunks : List Bytes) :
   rw [run_eq_lines]; simp [sync]
 
 /-- the fast path (empty buffer: log the slice directly) and the buffered path agree -/
-theorem fast_path_eq (buff cur s : Bytes) : feed buff cur s = lines (buff ++ cur) s := feed_eq_lines buff cur s
+theorem fast_path_eq (buff s : Bytes) : write buff s = lines buff s := feed_eq_lines _ buff s (Nat.lt_succ_self _)
 
 /-- a Sync is a split point: afterwards nothing is buffered -/
 theorem sync_is_split (w : W) : (step w .sync).1.buff = [] := by simp [step, sync]
